@@ -158,10 +158,11 @@ Proof.
   - apply move_sum; try assumption; exact Hn.
 Qed.
 
-Lemma exec_ev_good : forall U W e c, universe U -> ev_closed U e -> goodst U W c -> goodst U W (exec_ev repaired e c).
+Lemma exec_ev_good : forall U W e c, universe U -> ev_closed U e -> ev_wf e -> goodst U W c ->
+  goodst U W (exec_ev repaired e c).
 Proof.
-  intros U W e [l st] HU Hcl (Hg & Hst). cbn [fst snd] in Hg, Hst.
-  destruct e as [from to v|a b|a v|id|id]; cbn [exec_ev ev_closed] in *.
+  intros U W e [l st] HU Hcl Hwf (Hg & Hst). cbn [fst snd] in Hg, Hst.
+  destruct e as [from to v|a b|a v|o a req rel h|id|id]; cbn [exec_ev ev_closed ev_wf] in *.
   - destruct Hcl as (Hf & Ht). destruct (can_transfer repaired (bal l) from v) eqn:E; split; cbn [fst snd]; try assumption.
     apply transfer_repaired_good; assumption.
   - destruct Hcl as (Ha & Hb). destruct HU as (Hnd & Hfee). destruct Hg as (Hn & Hs & Hw).
@@ -182,18 +183,25 @@ Proof.
     repeat split; cbn [bal locked sched burned]; try assumption.
     + apply upd_nonneg; [exact Hn|lia].
     + unfold wealth in *. cbn [bal locked sched]. rewrite sumU_upd_in by assumption. lia.
+  - destruct Hcl as (Ho & Ha). destruct Hwf as (Hq & Hr). destruct Hg as (Hn & Hs & Hw).
+    split; cbn [fst snd]; [|assumption]. cbn [unstake_clamped repaired].
+    repeat split; cbn [bal locked sched burned]; try assumption.
+    + constructor; [cbn [fst snd]; split; [assumption|lia]|].
+      destruct (Z.ltb_spec req rel); [constructor; [cbn [fst snd]; split; [assumption|lia]|assumption]|assumption].
+    + unfold wealth in *. cbn [bal locked sched sched_total].
+      destruct (Z.ltb_spec req rel); cbn [sched_total]; lia.
   - split; cbn [fst snd]; [assumption|]. constructor; assumption.
   - apply revert_to_good; assumption.
 Qed.
 
-Lemma exec_trace_st_good : forall U W tr c, universe U -> Forall (ev_closed U) tr -> goodst U W c ->
+Lemma exec_trace_st_good : forall U W tr c, universe U -> Forall (ev_closed U) tr -> Forall ev_wf tr -> goodst U W c ->
   goodst U W (exec_trace_st repaired tr c).
 Proof.
-  intros U W tr. induction tr as [|e r IH]; intros c HU Hcl Hg; cbn [exec_trace_st fold_left]; [assumption|].
-  inversion Hcl; subst. apply IH; try assumption. apply exec_ev_good; assumption.
+  intros U W tr. induction tr as [|e r IH]; intros c HU Hcl Hwf Hg; cbn [exec_trace_st fold_left]; [assumption|].
+  inversion Hcl; inversion Hwf; subst. apply IH; try assumption. apply exec_ev_good; assumption.
 Qed.
 
-Lemma exec_trace_good : forall U W tr l, universe U -> Forall (ev_closed U) tr -> good U W l ->
+Lemma exec_trace_good : forall U W tr l, universe U -> Forall (ev_closed U) tr -> Forall ev_wf tr -> good U W l ->
   good U W (exec_trace repaired tr l).
 Proof.
   intros. unfold exec_trace. apply (exec_trace_st_good U W tr (l, [])); try assumption.
@@ -213,13 +221,14 @@ Lemma exec_ev_nonneg : forall var e c, nonneg (fst c) -> Forall (fun p => nonneg
   nonneg (fst (exec_ev var e c)) /\ Forall (fun p => nonneg (snd p)) (snd (exec_ev var e c)).
 Proof.
   intros var e [l st] Hn Hst. cbn [fst snd] in *.
-  destruct e as [from to v|a b|a v|id|id]; cbn [exec_ev].
+  destruct e as [from to v|a b|a v|o a req rel h|id|id]; cbn [exec_ev].
   - destruct (can_transfer var (bal l) from v); cbn [fst snd]; split; try assumption.
     unfold nonneg, set_bal; cbn [bal]. apply move_nonneg. exact Hn.
   - cbn [fst snd]. split; [|assumption]. unfold nonneg; cbn [bal].
     apply upd_nonneg; [apply add_bal_nonneg; exact Hn|lia].
   - destruct (sub_bal (bal l) a v) as [b' [|]] eqn:E; cbn [fst snd]; split; try assumption.
     unfold nonneg; cbn [bal]. change b' with (fst (b', true)). rewrite <- E. apply sub_bal_nonneg. exact Hn.
+  - cbn [fst snd]. split; assumption.
   - cbn [fst snd]. split; [assumption|constructor; assumption].
   - apply revert_to_nonneg; assumption.
 Qed.
@@ -250,7 +259,7 @@ Proof.
     destruct HU as (Hnd & _). pose proof H1 as (Hn1 & _ & _).
     destruct (change_assets_good U src tgts (bal l1) b Hnd Hs Ht Hn1 E) as (Hb & Hsum).
     apply good_set_bal; assumption.
-  - destruct Hcl as (Hs & Ht). destruct Hwf as (Hg0 & Hst). pose proof (fee_step_good U W l src HU Hs Hg) as H1.
+  - destruct Hcl as (Hs & Ht). destruct Hwf as (Hg0 & Hst & Htr). pose proof (fee_step_good U W l src HU Hs Hg) as H1.
     destruct (fee_step l src) as [l1 [|]]; cbn [fst] in H1; [|assumption].
     destruct (negb dok); [assumption|]. destruct (bal l1 src <? lf + val); [assumption|].
     destruct (negb iok); [apply fail_charge_good; assumption|].
@@ -442,11 +451,12 @@ Proof.
   intros var tr. induction tr as [|e r IH]; intros [l st] B Hns Hb; cbn [exec_trace_st fold_left]; [assumption|].
   inversion Hns as [|? ? He Hr]; subst. apply IH; [assumption|].
   destruct Hb as (Hb & Hst). cbn [fst snd] in *.
-  destruct e as [from to v|a b|a v|id|id]; cbn [exec_ev].
+  destruct e as [from to v|a b|a v|o a req rel h|id|id]; cbn [exec_ev].
   - destruct (can_transfer var (bal l) from v); split; cbn [fst snd]; assumption.
   - cbn [no_self_suicide] in He. split; cbn [fst snd burned]; [|assumption].
     destruct (N.eqb_spec a b); [congruence|lia].
   - destruct (sub_bal (bal l) a v) as [b' [|]]; split; cbn [fst snd burned]; assumption.
+  - split; cbn [fst snd burned]; assumption.
   - split; cbn [fst snd]; [assumption|constructor; assumption].
   - apply revert_to_burned; assumption.
 Qed.
@@ -469,7 +479,7 @@ Proof.
   assert (HU : universe U3) by (split; [repeat constructor; cbn; intuition discriminate|cbn; auto]).
   assert (Hn : nonneg l_mint) by (intro a; cbn; destruct (N.eqb a 1); unfold tx_fee; lia).
   assert (Hc : tx_closed U3 tx_mint) by (split; [inU|repeat constructor; inU]).
-  assert (Hw : tx_wf tx_mint) by (cbn; lia).
+  assert (Hw : tx_wf tx_mint) by (cbn; repeat split; try lia; repeat constructor).
   repeat (split; [assumption|]). vm_compute. split; reflexivity.
 Qed.
 
@@ -486,21 +496,23 @@ Proof.
   assert (HU : universe U3) by (split; [repeat constructor; cbn; intuition discriminate|cbn; auto]).
   assert (Hn : nonneg l_neg) by (intro a; cbn; destruct (N.eqb a 1); lia).
   assert (Hc : tx_closed U3 tx_neg) by (split; [inU|repeat constructor; inU]).
-  assert (Hw : tx_wf tx_neg) by (cbn; lia).
+  assert (Hw : tx_wf tx_neg) by (cbn; repeat split; try lia; repeat constructor).
   repeat (split; [assumption|]). vm_compute. reflexivity.
 Qed.
 
 (* under the guards that exclude the two defects the original source behaves like the repaired one *)
-Definition ev_nonneg_value (e : ev) : Prop := match e with EValue _ _ v => 0 <= v | _ => True end.
+Definition ev_guard (e : ev) : Prop :=
+  match e with EValue _ _ v => 0 <= v | EUnstake _ _ req rel _ => req <= rel | _ => True end.
 
-Lemma exec_ev_original_eq : forall e c, ev_nonneg_value e -> exec_ev original e c = exec_ev repaired e c.
+Lemma exec_ev_original_eq : forall e c, ev_guard e -> exec_ev original e c = exec_ev repaired e c.
 Proof.
-  intros e [l st] H. destruct e as [from to v|a b|a v|id|id]; cbn [exec_ev]; try reflexivity.
-  cbn [ev_nonneg_value] in H. unfold can_transfer. cbn [cantransfer_signed original repaired].
-  destruct (Z.leb_spec 0 v); [reflexivity|lia].
+  intros e [l st] H. destruct e as [from to v|a b|a v|o a req rel h|id|id]; cbn [exec_ev]; try reflexivity.
+  - cbn [ev_guard] in H. unfold can_transfer. cbn [cantransfer_signed original repaired].
+    destruct (Z.leb_spec 0 v); [reflexivity|lia].
+  - cbn [ev_guard] in H. cbn [unstake_clamped original repaired]. rewrite Z.min_l by assumption. reflexivity.
 Qed.
 
-Lemma exec_trace_original_eq : forall tr c, Forall ev_nonneg_value tr ->
+Lemma exec_trace_original_eq : forall tr c, Forall ev_guard tr ->
   exec_trace_st original tr c = exec_trace_st repaired tr c.
 Proof.
   induction tr as [|e r IH]; intros c H; cbn [exec_trace_st fold_left]; [reflexivity|].
@@ -517,8 +529,8 @@ Qed.
 Definition gas_guard (t : tx) (l : led) : Prop :=
   match t with
   | TContract src dok lf val iok tr true g _ =>
-    Forall ev_nonneg_value tr /\ g <= bal (exec_trace repaired tr (fst (fee_step l src))) src
-  | TContract _ _ _ _ _ tr false _ _ => Forall ev_nonneg_value tr
+    Forall ev_guard tr /\ g <= bal (exec_trace repaired tr (fst (fee_step l src))) src
+  | TContract _ _ _ _ _ tr false _ _ => Forall ev_guard tr
   | _ => True
   end.
 
@@ -590,3 +602,165 @@ Lemma original_conserves_under_guard : forall U t l, universe U -> tx_closed U t
   let l' := exec_tx original t l in
   wealth U l' + burned l' = wealth U l + burned l /\ nonneg l' /\ sched_ok U (sched l').
 Proof. intros U t l HU Hc Hw Hn Hs Hg. rewrite exec_tx_original_eq by assumption. apply tx_conserves; assumption. Qed.
+
+(* ---------- the UNSTAKE defect of the original source ---------- *)
+(* contract 2 is the account of a miner holding 800 tokens of stake; a call from 1 makes it run UNSTAKE(1.5 token):
+   one whole token leaves the stake, 1.5 are scheduled for the origin. *)
+Definition l_unstake : led :=
+  {| bal := fun a => if N.eqb a 1 then 5000000000000000000 else 0; locked := 800000000000000000000; sched := []; burned := 0 |}.
+Definition tx_unstake : tx :=
+  TContract 1%N true 3000000000000000 0 true [EUnstake 1%N 2%N 1500000000000000000 1000000000000000000 36020%N] true
+            1244000000000000 None.
+
+Lemma unstake_original :
+  universe U3 /\ nonneg l_unstake /\ tx_closed U3 tx_unstake /\ tx_wf tx_unstake /\
+  wealth U3 (exec_tx original tx_unstake l_unstake) = wealth U3 l_unstake + 500000000000000000 /\
+  burned (exec_tx original tx_unstake l_unstake) = 0.
+Proof.
+  assert (HU : universe U3) by (split; [repeat constructor; cbn; intuition discriminate|cbn; auto]).
+  assert (Hn : nonneg l_unstake) by (intro a; cbn; destruct (N.eqb a 1); lia).
+  assert (Hc : tx_closed U3 tx_unstake) by (split; [inU|repeat constructor; inU]).
+  assert (Hw : tx_wf tx_unstake) by (cbn; repeat split; try lia; repeat constructor; cbn; lia).
+  repeat (split; [assumption|]). vm_compute. split; reflexivity.
+Qed.
+
+Lemma unstake_mint_refuted : exists U l t, universe U /\ nonneg l /\ sched_ok U (sched l) /\ tx_closed U t /\ tx_wf t /\
+  wealth U (exec_tx original t l) + burned (exec_tx original t l) > wealth U l + burned l.
+Proof.
+  exists U3, l_unstake, tx_unstake. destruct unstake_original as (H1 & H2 & H3 & H4 & H5 & H6).
+  repeat (split; [assumption|]). split; [constructor|]. split; [assumption|]. split; [assumption|].
+  rewrite H5, H6. cbn [burned l_unstake]. lia.
+Qed.
+
+(* ---------- what is held outside the balances (stake + escrow + destroyed) never shrinks inside a transaction ---------- *)
+Definition held (l : led) : Z := locked l + sched_total (sched l) + burned l.
+
+Lemma held_set_bal : forall l b, held (set_bal l b) = held l.
+Proof. reflexivity. Qed.
+
+Definition heldst (M : Z) (c : led * list (N * led)) : Prop :=
+  M <= held (fst c) /\ Forall (fun p => M <= held (snd p)) (snd c).
+
+Lemma revert_to_held : forall M id st cur, M <= held cur -> Forall (fun p => M <= held (snd p)) st ->
+  heldst M (revert_to id st cur).
+Proof.
+  intros M id st. induction st as [|[i l] r IH]; intros cur Hc Hst; cbn [revert_to].
+  - split; [assumption|constructor].
+  - apply Forall_cons_iff in Hst. destruct Hst as (Hl & Hr). cbn [snd] in Hl.
+    destruct (N.eqb i id); [split; assumption|]. apply IH; assumption.
+Qed.
+
+Lemma exec_ev_held : forall var M e c, ev_wf e -> nonneg (fst c) -> heldst M c -> heldst M (exec_ev var e c).
+Proof.
+  intros var M e [l st] Hwf Hn (Hh & Hst). cbn [fst snd] in *.
+  destruct e as [from to v|a b|a v|o a req rel h|id|id]; cbn [exec_ev ev_wf] in *.
+  - destruct (can_transfer var (bal l) from v); split; cbn [fst snd]; assumption.
+  - split; cbn [fst snd]; [|assumption]. unfold held in *. cbn [locked sched burned].
+    pose proof (Hn a). destruct (N.eqb a b); lia.
+  - destruct (sub_bal (bal l) a v) as [b' [|]]; split; cbn [fst snd]; try assumption.
+    unfold held in *. cbn [locked sched burned]. lia.
+  - split; cbn [fst snd]; [|assumption]. unfold held in *. cbn [locked sched burned sched_total].
+    destruct (unstake_clamped var); destruct (Z.ltb_spec req rel); cbn [sched_total]; lia.
+  - split; cbn [fst snd]; [assumption|constructor; assumption].
+  - apply revert_to_held; assumption.
+Qed.
+
+Lemma exec_trace_st_held : forall var M tr c, Forall ev_wf tr -> nonneg (fst c) -> Forall (fun p => nonneg (snd p)) (snd c) ->
+  heldst M c -> heldst M (exec_trace_st var tr c).
+Proof.
+  intros var M tr. induction tr as [|e r IH]; intros c Hwf Hn Hns Hh; cbn [exec_trace_st fold_left]; [assumption|].
+  inversion Hwf; subst. destruct (exec_ev_nonneg var e c Hn Hns). apply IH; try assumption.
+  apply exec_ev_held; assumption.
+Qed.
+
+Lemma exec_trace_held : forall var tr l, Forall ev_wf tr -> nonneg l -> held l <= held (exec_trace var tr l).
+Proof.
+  intros var tr l Hwf Hn. unfold exec_trace.
+  assert (Hh : heldst (held l) (l, [])) by (split; cbn [fst snd]; [lia|constructor]).
+  destruct (exec_trace_st_held var (held l) tr (l, []) Hwf Hn (Forall_nil _) Hh) as (H & _). exact H.
+Qed.
+
+Lemma fee_step_held : forall l src, held (fst (fee_step l src)) = held l.
+Proof. intros l src. unfold fee_step. destruct (bal l src <? tx_fee); reflexivity. Qed.
+
+Lemma fail_charge_held : forall l src g, held (fail_charge l src g) = held l.
+Proof. intros l src [g|]; reflexivity. Qed.
+
+Lemma gas_charge_held : forall var l src g, held (gas_charge var l src g) = held l.
+Proof. intros var l src g. unfold gas_charge. destruct (gas_clamped var); reflexivity. Qed.
+
+Lemma exec_tx_held : forall var t l, tx_wf t -> nonneg l -> held l <= held (exec_tx var t l).
+Proof.
+  intros var t l Hwf Hn.
+  destruct t as [src tgts|src dok lf val iok tr eok g stale|src stake rok|src amount h to rok|src|src ok];
+    cbn [exec_tx tx_wf] in *; pose proof (fee_step_held l src) as Hf; pose proof (fee_step_nonneg l src Hn) as Hn1;
+    destruct (fee_step l src) as [l1 [|]]; cbn [fst] in *; try lia.
+  - destruct (change_assets (bal l1) src tgts); [rewrite held_set_bal|]; lia.
+  - destruct Hwf as (_ & _ & Htr). destruct (negb dok); [lia|]. destruct (bal l1 src <? lf + val); [lia|].
+    destruct (negb iok); [rewrite fail_charge_held; lia|].
+    destruct eok; [rewrite gas_charge_held|rewrite fail_charge_held; lia].
+    pose proof (exec_trace_held var tr l1 Htr Hn1). lia.
+  - destruct rok; [|lia]. destruct (sub_bal (bal l1) src stake) as [b [|]]; [|lia].
+    unfold held in *. cbn [locked sched burned]. lia.
+  - destruct rok; [|lia]. unfold held in *. cbn [locked sched burned sched_total]. lia.
+  - destruct ok; [|lia]. destruct (sub_bal (bal l1) src ten_tokens) as [b [|]]; [|lia].
+    unfold held in *. cbn [locked sched burned]. unfold ten_tokens. lia.
+Qed.
+
+(* the sum of the balances never grows by a transaction; it shrinks by exactly what moved into stake / escrow / burn *)
+Lemma tx_balances_never_increase : forall U t l, universe U -> tx_closed U t -> tx_wf t -> nonneg l -> sched_ok U (sched l) ->
+  let l' := exec_tx repaired t l in
+  sumU U (bal l') = sumU U (bal l) - (held l' - held l) /\ held l <= held l' /\ sumU U (bal l') <= sumU U (bal l).
+Proof.
+  intros U t l HU Hc Hw Hn Hs l'.
+  destruct (tx_conserves U t l HU Hc Hw Hn Hs) as (H1 & _ & _). fold l' in H1.
+  pose proof (exec_tx_held repaired t l Hw Hn) as H2. fold l' in H2.
+  unfold wealth, held in *. repeat split; lia.
+Qed.
+
+(* ---------- a failed contract transaction leaves nothing behind but fees ---------- *)
+Definition same_except (src : addr) (l l' : led) : Prop :=
+  locked l' = locked l /\ sched l' = sched l /\ burned l' = burned l /\
+  forall a, a <> src -> a <> fee_account -> bal l' a = bal l a.
+
+Lemma same_except_refl : forall src l, same_except src l l.
+Proof. intros; repeat split; reflexivity. Qed.
+
+Lemma same_except_trans : forall src l1 l2 l3, same_except src l1 l2 -> same_except src l2 l3 -> same_except src l1 l3.
+Proof.
+  intros src l1 l2 l3 (A1 & A2 & A3 & A4) (B1 & B2 & B3 & B4). repeat split; try congruence.
+  intros a H1 H2. rewrite B4, A4 by assumption. reflexivity.
+Qed.
+
+Lemma move_to_fee_except : forall l src v,
+  same_except src l (set_bal l (add_bal (fst (sub_bal (bal l) src v)) fee_account v)).
+Proof.
+  intros l src v. repeat split. intros a H1 H2. cbn [set_bal bal]. unfold add_bal. rewrite upd_other by assumption.
+  unfold sub_bal. destruct (bal l src <? v); cbn [fst]; [reflexivity|]. rewrite upd_other by assumption. reflexivity.
+Qed.
+
+Lemma fee_step_except : forall l src, same_except src l (fst (fee_step l src)).
+Proof.
+  intros l src. unfold fee_step. destruct (bal l src <? tx_fee); cbn [fst]; [apply same_except_refl|apply move_to_fee_except].
+Qed.
+
+Lemma fail_charge_except : forall l src g, same_except src l (fail_charge l src g).
+Proof. intros l src [g|]; cbn [fail_charge]; [apply move_to_fee_except|apply same_except_refl]. Qed.
+
+Lemma failed_contract_only_fees : forall var src dok lf val iok tr g stale l,
+  same_except src l (exec_tx var (TContract src dok lf val iok tr false g stale) l).
+Proof.
+  intros. cbn [exec_tx]. pose proof (fee_step_except l src) as H1.
+  destruct (fee_step l src) as [l1 [|]]; cbn [fst] in H1; [|assumption].
+  destruct (negb dok); [assumption|]. destruct (bal l1 src <? lf + val); [assumption|].
+  destruct (negb iok); (eapply same_except_trans; [exact H1|apply fail_charge_except]).
+Qed.
+
+(* ... and so does a transfer whose ChangeAssets fails at any target (insufficient balance in the middle of a
+   multi-target transfer, unparsable or negative amount): the targets credited before the failure are not kept. *)
+Lemma failed_transfer_only_fee : forall var src tgts l,
+  change_assets (bal (fst (fee_step l src))) src tgts = None ->
+  exec_tx var (TTransfer src tgts) l = fst (fee_step l src).
+Proof.
+  intros var src tgts l H. cbn [exec_tx]. destruct (fee_step l src) as [l1 [|]]; cbn [fst] in *; [rewrite H|]; reflexivity.
+Qed.
